@@ -173,8 +173,10 @@ def explore(world0, name='', max_states=200000, max_seconds=600.0, max_depth=400
                 except Violation as v:
                     res.violations.append({'clause': v.clause, 'detail': v.detail,
                                            'path': [list(x) for x in p2], 'scenario': name})
-                    if stop_on_violation or len(res.violations) >= max_violations:
+                    if stop_on_violation or len(res.violations) >= max_violations or getattr(v, 'fatal', False):
                         res.capped = res.capped or ('stopped after violations' if not stop_on_violation else None)
+                        if getattr(v, 'fatal', False):
+                            res.capped = 'stopped: an event of the library does not return (every further branch would cost the same time-out)'
                         stack.clear()
                         break
                     continue
